@@ -7,9 +7,9 @@ struct Wrapped<T, M> { items: std::vec::IntoIter<T>, _m: M }
 impl<T, M> Iterator for Wrapped<T, M> { type Item = T; fn next(&mut self) -> Option<T> { self.items.next() } }
 fn main() {
     let col: Vec<String> = vec![String::from("a"), String::from("b"), String::from("c")];
-    let it = col.con_iter();
-    let r = it.next();
-    let c = it.next_chunk(2);
+    let it = col.into_iter().into_con_iter();
+    let mut b = it.buffered_iter(2);
+    let k1 = b.next();
     let s = it.into_seq_iter(); drop(s);
-    if let Some(x) = r { let _y = x.clone(); }
+    if let Some(x) = k1 { let _n = x.values.count(); }
 }
